@@ -11,7 +11,8 @@
     length); membership is arithmetic.  Traffic classes are PktCls conditions.
     The atoms of the policy text (ISD-AS, prefix, IP address) are parsed and
     printed by library functions (addr.ParseIA, netip.ParsePrefix, net.ParseIP and
-    their String methods); the model receives them as a table. *)
+    their String methods); the model receives them as a table: every text that one
+    of the parsers accepts and that occurs in the case, with the values. *)
 From Coq Require Import List NArith Bool.
 From Coq Require String Ascii.
 From Scion Require Import Lib.Check Model.PktCls.
@@ -258,17 +259,17 @@ Definition advertise_list (p : policy) (from to : ia) : list prefix :=
 Record atom := Atom { a_text : list N; a_ia : option ia; a_pfx : option prefix;
                       a_ip : option ipaddr; a_canon : bool }.
 Definition atoms := list atom.
-Inductive res (A : Type) := Ok (a : A) | Err | Miss.
-Arguments Ok {A} a. Arguments Err {A}. Arguments Miss {A}.
+Inductive res (A : Type) := Ok (a : A) | Err.
+Arguments Ok {A} a. Arguments Err {A}.
 
 Definition lookup (tb : atoms) (w : list N) : option atom :=
   find (fun a => bytes_eqb (a_text a) w) tb.
 Definition parse_ia (tb : atoms) (w : list N) : res ia :=
-  match lookup tb w with Some a => match a_ia a with Some v => Ok v | None => Err end | None => Miss end.
+  match lookup tb w with Some a => match a_ia a with Some v => Ok v | None => Err end | None => Err end.
 Definition parse_pfx (tb : atoms) (w : list N) : res prefix :=
-  match lookup tb w with Some a => match a_pfx a with Some v => Ok v | None => Err end | None => Miss end.
+  match lookup tb w with Some a => match a_pfx a with Some v => Ok v | None => Err end | None => Err end.
 Definition parse_ip (tb : atoms) (w : list N) : res ipaddr :=
-  match lookup tb w with Some a => match a_ip a with Some v => Ok v | None => Err end | None => Miss end.
+  match lookup tb w with Some a => match a_ip a with Some v => Ok v | None => Err end | None => Err end.
 
 Definition ia_eqb (a b : ia) : bool := (fst a =? fst b) && (snd a =? snd b).
 Definition show_ia (tb : atoms) (v : ia) : option (list N) :=
@@ -324,7 +325,7 @@ Definition trim_prefix1 (l : list N) : list N :=
   match l with c :: r => if c =? 32 then r else l | [] => [] end.
 
 Definition res_bind {A B} (x : res A) (f : A -> res B) : res B :=
-  match x with Ok a => f a | Err => Err | Miss => Miss end.
+  match x with Ok a => f a | Err => Err end.
 
 Definition parse_action (w : list N) : res action :=
   if bytes_eqb w (str "accept") then Ok AAccept
@@ -539,7 +540,7 @@ Definition diag (c : case) : list (option N) * list bool * option (list N) * res
   | CAdv p from to _ => ([], [], None, Err)
   | CUnm tb text _ => ([], [], None, unmarshal tb text)
   | CMar tb p _ _ => ([], [], marshal tb p,
-                      match marshal tb p with Some s => unmarshal tb s | None => Miss end)
+                      match marshal tb p with Some s => unmarshal tb s | None => Err end)
   end.
 
 End GwRoute.
